@@ -33,14 +33,15 @@ Record wh_case := mkWC {
    9 is_identity, 10 T, 11 Tinv, 12 transform(X), 13 inverse_transform_data(transform(X)),
    14 transform_components(P), 15 inverse_transform_components(transform_components(P)),
    16 model: un-whitened data = X, 17 model: patterns come back *)
-Definition check_wh (rt : float) (c : wh_case) : list nat :=
+Definition check_wh (relative : bool) (rt : float) (c : wh_case) : list nat :=
   let n := wc_n c in let p := wc_p c in let m := wc_m c in
   let eps := inj f64_eps in
   let C := whiten_cov K n p (wc_X c) in
   let V := wc_V c in
-  let w := whiten_fit K p (wc_alpha c) eps V (wc_lam c) (wc_d c) (wc_dinv c) in
+  let thr := whiten_threshold K relative eps p (vmax K (wc_lam c)) in
+  let w := whiten_fit K p (wc_alpha c) eps thr V (wc_lam c) (wc_d c) (wc_dinv c) in
   let ones := vtab p (fun _ => f1 K) in
-  let full := forallb (fun l => whiten_keep K l eps) (wc_lam c) in
+  let full := forallb (fun l => whiten_keep K l thr) (wc_lam c) in
   let a := wc_anum c in let b := wc_aden c in
   let Xw := w_transform K n p w (wc_X c) in
   let Xb := w_inverse_data K n p w Xw in
@@ -68,8 +69,9 @@ Definition check_wh (rt : float) (c : wh_case) : list nat :=
   (if negb full || msame crt Xb (wc_X c) then [] else [16%nat]) ++
   (if negb full || msame crt Pb (wc_P c) then [] else [17%nat]).
 
-Definition check_whs (rt : float) (cs : list wh_case) : list (nat * nat) :=
-  concat (map (fun ic => map (fun f => (fst ic, f)) (check_wh rt (snd ic))) (combine (seq 0 (length cs)) cs)).
+(* [relative] is the generated constant Gen.T5whiten.fmp_cutoff_relative, passed in by the case files *)
+Definition check_whs (relative : bool) (rt : float) (cs : list wh_case) : list (nat * nat) :=
+  concat (map (fun ic => map (fun f => (fst ic, f)) (check_wh relative rt (snd ic))) (combine (seq 0 (length cs)) cs)).
 
 Record pca_case := mkPC {
   pc_n : nat; pc_p : nat; pc_k : nat; pc_m : nat;
